@@ -11,6 +11,11 @@ Families:
          (`expr -= 2`, `expr[k] += c`, `expr *= -1`) to build the next constraint, passed again, ... and mutated once
          more after the last call; the recorded constraints and is_solution_valid must keep the values H had at the
          time of each call (the model is pure: it records the value at call time)
+  neutral  bookkeeping-neutral steps on the PCSO between the constraints of `seq` / `run` histories and after the last
+         one: `refresh()`, `copy()` (the history continues on the copy), `H += 0`, a cancelling item edit
+         (`H[k] += 5; H[k] -= 5`), `subs` of an unused symbol (continues on the result).  The pure model skips them:
+         terms, recorded constraints, num_ancillas, is_solution_valid and the ancilla names of later constraints must be
+         exactly as if the step had not happened
   lbl    the same abstract case under all four label realisations must give the same abstract result
 
 Every case is run on the real `qubovert.PCSO` and on the Lean model (`op: pcso_cons`); compared exactly after
@@ -33,7 +38,8 @@ CEXT = "plain"
 RULE = ("calls PCSO.add_constraint_R_zero(H, lam, log_trick, bounds, suppress_warnings) on one PCSO, 1..4 calls per case; "
         "H integer-valued on spins (integer coefficients, or the exact spin form of an integer boolean template), n<=4, "
         "degree<=3, given as dict / PUSO / PCSO or as ONE kept PUSO/PCSO object mutated in place between and after the calls "
-        "(running-expression histories), 4 label realisations, int/Fraction or dyadic float coefficients; "
+        "(running-expression histories), bookkeeping-neutral steps on the PCSO between and after the calls (refresh, copy, "
+        "+= 0, cancelling item edit, subs of an unused symbol; skipped by the pure model), 4 label realisations, int/Fraction or dyadic float coefficients; "
         "6 relations x log_trick x bounds modes {none, (None,None), exact, loose, left, right, fractional loose} "
         "(valid for the range of H) x lam in {1,2,1/2,3} (+ lam=0 rarely); non-trivial = some step adds a penalty with "
         ">=2 terms; distinct = distinct case JSON")
@@ -239,7 +245,35 @@ def rand_step(rng, n):
 def rand_case(rng, steps=1):
     n = rng.choice([1, 2, 3, 3, 4])
     seq = [rand_step(rng, n) for _ in range(steps)]
-    return mk_case("rand" if steps == 1 else "seq", seq, rng.choice(Labels.STYLES))
+    c = mk_case("rand" if steps == 1 else "seq", seq, rng.choice(Labels.STYLES))
+    return add_neutral(rng, c) if steps > 1 else c
+
+NEUTRAL = ["refresh", "copy", "iadd0", "cancel", "subs"]
+
+def add_neutral(rng, case, p_step=0.5, p_tail=0.5):
+    """sprinkle bookkeeping-neutral steps before the calls (`pre`) and after the last one (`tail`)"""
+    for i, st in enumerate(case["seq"]):
+        if rng.random() < (p_step if i else 0.15):
+            st["pre"] = [rng.choice(NEUTRAL) for _ in range(rng.choice([1, 1, 2]))]
+    if rng.random() < p_tail:
+        case["tail"] = [rng.choice(NEUTRAL) for _ in range(rng.choice([1, 1, 2]))]
+    return case
+
+def fixed_neutral_cases():
+    """constraint with ancillas; neutral step; every relation again; neutral step"""
+    rng = __import__("random").Random(11)
+    H1 = items_of({(0,): 1, (1,): 1, (0, 1): -2})
+    H2 = items_of({(0,): 1, (1,): -1, (): 1})
+    out, idx = [], 0
+    for op in NEUTRAL:
+        for rel in RELS:
+            for first in ("le", "ne"):
+                seq = [make_step(rng, H1, 2, first, True, "none", "1"),
+                       dict(make_step(rng, H2, 2, rel, True, "none", LAMS[idx % 4]), pre=[op])]
+                c = mk_case("seq", seq, Labels.STYLES[idx % 4]); idx += 1
+                c["tail"] = [op]
+                out.append(c)
+    return out
 
 def canon_items(items):
     """generator-side canonical form {sorted odd-multiplicity ids: Fraction} of raw spin items"""
@@ -287,7 +321,7 @@ def run_case(rng, steps):
     c["n"] = max(c["n"], n)
     c["running"] = obj
     c["post"] = items_of(canon_items(next_target(rng, items, n) + [[[], rng.choice(["-2", "3"])]]))
-    return c
+    return add_neutral(rng, c)
 
 def fixed_run_cases():
     """the documented style: expr = z0 + z1 + z2; add(expr >= 0); expr -= 2; add(expr <= 0); ..."""
@@ -369,6 +403,31 @@ def morph(expr, items, coef, L):
             ops.append("item %s" % delta)
     return ops
 
+def apply_neutral(H, op, L, n):
+    """a step that must not change what the PCSO is: returns the object the history continues on"""
+    if op == "refresh":
+        H.refresh()
+    elif op == "copy":
+        H = H.copy()
+    elif op == "iadd0":
+        H += 0
+    elif op == "cancel":
+        key = (L.lab(0),) if n else ()
+        H[key] += 5
+        H[key] -= 5
+    elif op == "subs":
+        import sympy
+        H = H.subs(sympy.Symbol("unused_symbol_q"), 3)
+    else:
+        raise ValueError(op)
+    return H
+
+def observe(H, L, n):
+    valid = [bool(H.is_solution_valid({L.lab(i): v for i, v in enumerate(z)})) for _, z in spins(n)]
+    present = [L.ident(x) - ANC for k in H for x in k if isinstance(x, str) and x.startswith("__a")]
+    return {"valid": valid, "L": L, "anc": H.num_ancillas, "present": present, "type": type(H).__name__,
+            "rec": {rel: [dict(P) for P in lst] for rel, lst in H.constraints.items()}}
+
 def terms_ids(d, L):
     """{frozenset(ids): Fraction} of a model's terms"""
     out = {}
@@ -395,6 +454,16 @@ def run_impl(case, style=None):
     pcmod._empty_pcbo = spy
     try:
         for st in case["seq"]:
+            mid = None
+            if st.get("pre"):
+                try:
+                    for op in st["pre"]:
+                        H = apply_neutral(H, op, L, n)
+                    mid = observe(H, L, n)
+                except Exception as e:
+                    outs.append({"err": exc_name(e)})
+                    facts.append({"err": "%s in bookkeeping-neutral step %s: %s" % (exc_name(e), st["pre"], str(e)[:200])})
+                    continue
             before = terms_ids(H, L)
             anc_before = H.num_ancillas
             kw = {"lam": num_of(st["lam"], st["coef"]), "suppress_warnings": st["sup"]}
@@ -446,17 +515,27 @@ def run_impl(case, style=None):
                          "valid": valid, "helper": helper})
             facts.append({"before": before, "after": terms_ids(H, L), "anc_before": anc_before,
                           "anc_after": H.num_ancillas, "warns": step_warns, "valid": valid,
-                          "ret_self": r is H, "ncaptured": len(captured),
+                          "ret_self": r is H, "ncaptured": len(captured), "mid": mid,
                           "rec": {rel: [dict(P) for P in lst] for rel, lst in H.constraints.items()},
                           "L": L})
-        if running is not None and case.get("post") is not None:
-            # the caller goes on using its expression object after the last constraint was added
-            morph(running, case["post"], "exact", L)
-            valid = [bool(H.is_solution_valid({L.lab(i): v for i, v in enumerate(z)})) for _, z in spins(n)]
-            outs.append({"post": {"terms": canon_terms(H, L), "anc": H.num_ancillas, "valid": valid,
-                                  "cons": {rel: [canon_terms(P, L) for P in lst] for rel, lst in H.constraints.items()}}})
-            facts.append({"post": True, "valid": valid, "L": L,
-                          "rec": {rel: [dict(P) for P in lst] for rel, lst in H.constraints.items()}})
+        do_post = running is not None and case.get("post") is not None
+        if do_post or case.get("tail"):
+            try:
+                for op in case.get("tail") or []:
+                    H = apply_neutral(H, op, L, n)
+                if do_post:
+                    # the caller goes on using its expression object after the last constraint was added
+                    morph(running, case["post"], "exact", L)
+                ob = observe(H, L, n)
+                outs.append({"post": {"terms": canon_terms(H, L), "anc": H.num_ancillas, "valid": ob["valid"],
+                                      "cons": {rel: [canon_terms(P, L) for P in lst] for rel, lst in H.constraints.items()}}})
+                facts.append(dict(ob, post=True))
+            except common.Infra:
+                raise
+            except Exception as e:
+                outs.append({"post": {"err": exc_name(e)}})
+                facts.append({"post": True, "err": "%s in the steps after the last call %s: %s" % (
+                    exc_name(e), case.get("tail"), str(e)[:200])})
     finally:
         pcmod._empty_pcbo = orig
     return outs, facts
@@ -512,6 +591,19 @@ def check_recorded(tag, f, n, ok_so_far, recorded):
                         tag, rel, z, tv, hval(hm, z))
     return None
 
+def check_state(tag, f, n, ok_so_far, recorded):
+    """a state between / after the calls: still a PCSO, is_solution_valid and the recorded constraints are those of the
+    constraints added so far, and num_ancillas covers every ancilla present"""
+    if f["type"] != "PCSO":
+        return "%s: the model is a %s, not a PCSO" % (tag, f["type"])
+    bad = check_recorded(tag, f, n, ok_so_far, recorded)
+    if bad:
+        return bad
+    if f["present"] and f["anc"] < 1 + max(f["present"]):
+        return "%s: num_ancillas = %d does not cover ancilla __a%d present in the model" % (
+            tag, f["anc"], max(f["present"]))
+    return None
+
 def oracle(case, facts, ctx=None):
     n = case["n"]
     ok_so_far = [True] * (1 << n)
@@ -524,6 +616,11 @@ def oracle(case, facts, ctx=None):
             return "%s raised %s" % (tag, f["err"])
         if not f["ret_self"]:
             return "%s did not return self" % tag
+        if f.get("mid"):
+            bad = check_state("before step %d, after the bookkeeping-neutral step(s) %s" % (si, st["pre"]), f["mid"], n,
+                              ok_so_far, recorded)
+            if bad:
+                return bad
         lam = Fraction(st["lam"])
         F = {}
         for k in set(f["before"]) | set(f["after"]):
@@ -601,9 +698,15 @@ def oracle(case, facts, ctx=None):
             if not holds and Fraction(mn, den) < lam:
                 return "%s: H(z)=%s violates the relation at z=%s but the penalty can be as low as %s < lam" % (
                     tag, hv, z, Fraction(mn, den))
-    if len(facts) > len(case["seq"]) and facts[-1].get("post") and not any("err" in f for f in facts):
-        bad = check_recorded("after the last call, once the caller modified its expression object in place", facts[-1],
-                             n, ok_so_far, recorded)
+    if len(facts) > len(case["seq"]) and facts[-1].get("post") and not any("err" in f for f in facts[:-1]):
+        what = "after the last call"
+        if case.get("tail"):
+            what += ", after the bookkeeping-neutral step(s) %s" % case["tail"]
+        if case.get("running"):
+            what += ", once the caller modified its expression object in place"
+        if "err" in facts[-1]:
+            return "%s: raised %s" % (what, facts[-1]["err"])
+        bad = check_state(what, facts[-1], n, ok_so_far, recorded)
         if bad:
             return bad
     return None
@@ -652,6 +755,8 @@ def process(ctx, cases, all_styles=False):
         ctx.count("family:" + c["family"])
         if c.get("running"):
             ctx.count("running:" + c["running"])
+        for op in [o for st in c["seq"] for o in st.get("pre", [])] + (c.get("tail") or []):
+            ctx.count("neutral:" + op)
         for st, o in zip(c["seq"], outs):
             ctx.count("rel:%s:%s" % (st["rel"], "err" if "err" in o else "ok"))
             ctx.count("bounds:%s" % ("none" if st["lo"] is None and st["hi"] is None else
@@ -700,7 +805,7 @@ def check(ctx):
     for i, c in enumerate(seqs):
         if i % 7 == 0:
             c["allstyles"] = True
-    runs = fixed_run_cases() + [run_case(rng, rng.choice([2, 2, 3, 4])) for _ in range(ctx.scale(350, 5000))]
+    runs = fixed_neutral_cases() + fixed_run_cases() + [run_case(rng, rng.choice([2, 2, 3, 4])) for _ in range(ctx.scale(350, 5000))]
     for i, c in enumerate(runs):
         if i % 7 == 0:
             c["allstyles"] = True
@@ -725,6 +830,8 @@ def search(ctx):
             pre = mk_case("search", c["seq"][:i + 1], c["labels"])
             if c.get("running"):
                 pre["running"], pre["post"], pre["n"] = c["running"], c.get("post"), c["n"]
+            if c.get("tail"):
+                pre["tail"] = c["tail"]
             extra.append(pre)
             n = case_n([st])
             for rel in RELS:
@@ -733,7 +840,8 @@ def search(ctx):
                         extra.append(mk_case("search", [make_step(rng, st["H"], n, rel, lt, mode, st["lam"] if st["lam"] != "0" else "1")],
                                              c["labels"]))
     extra += [rand_case(rng, rng.choice([1, 2, 3])) for _ in range(1500)]
-    extra += fixed_run_cases() + [run_case(rng, rng.choice([2, 3])) for _ in range(500)]
+    extra += fixed_neutral_cases() + fixed_run_cases() + [run_case(rng, rng.choice([2, 3])) for _ in range(500)]
+    extra += [rand_case(rng, rng.choice([2, 3])) for _ in range(500)]
     for c in extra:
         _, facts = run_impl(c)
         bad = oracle(c, facts)
